@@ -1,0 +1,277 @@
+//go:build verif
+
+package engine
+
+// Verification control port (build tag "verif"). When the environment variable
+// VERIF_CTL=<ip:port> is set, every storage engine created in this process also serves
+// a small loopback HTTP API that lets the external harness steer the real engine
+// (force a flush, run the real compaction planner once, force an out-of-order merge,
+// all synchronously), arm the file-system kill switch of lib/fileops, configure
+// lib/verifhook points and read readiness/layout facts. It observes and triggers only:
+// none of the handlers changes how the engine does its work.
+
+import (
+	"encoding/json"
+	"fmt"
+	"io"
+	"net"
+	"net/http"
+	"os"
+	"sort"
+	"strconv"
+	"sync"
+	"sync/atomic"
+
+	"github.com/openGemini/openGemini/engine/immutable"
+	"github.com/openGemini/openGemini/lib/config"
+	"github.com/openGemini/openGemini/lib/fileops"
+	"github.com/openGemini/openGemini/lib/metaclient"
+	"github.com/openGemini/openGemini/lib/verifhook"
+)
+
+var (
+	verifCtlOnce   sync.Once
+	verifEngine    atomic.Value // *EngineImpl
+	verifEngOpened int32
+)
+
+func init() {
+	if os.Getenv("VERIF_CTL") == "" {
+		return
+	}
+	// engine.go's init registered NewEngine already (files initialise in name order)
+	engines[config.EngineType1] = func(dataPath, walPath string, options EngineOptions, ctx *metaclient.LoadCtx) (Engine, error) {
+		e, err := NewEngine(dataPath, walPath, options, ctx)
+		if err == nil {
+			if impl, ok := e.(*EngineImpl); ok {
+				verifEngine.Store(impl)
+			}
+			verifCtlOnce.Do(verifStartCtl)
+		}
+		return e, err
+	}
+}
+
+func verifStartCtl() {
+	addr := os.Getenv("VERIF_CTL")
+	ln, err := net.Listen("tcp", addr)
+	if err != nil {
+		fmt.Fprintf(os.Stderr, "verif ctl: listen %s: %v\n", addr, err)
+		return
+	}
+	mux := http.NewServeMux()
+	mux.HandleFunc("/verif/flush", verifFlush)
+	mux.HandleFunc("/verif/compact", verifCompact)
+	mux.HandleFunc("/verif/merge", verifMerge)
+	mux.HandleFunc("/verif/state", verifState)
+	mux.HandleFunc("/verif/fs/arm", verifFsArm)
+	mux.HandleFunc("/verif/fs/count", verifFsCount)
+	mux.HandleFunc("/verif/points", verifPoints)
+	go func() { _ = http.Serve(ln, mux) }()
+}
+
+func verifEng() *EngineImpl {
+	v, _ := verifEngine.Load().(*EngineImpl)
+	return v
+}
+
+// verifShards returns the shards (optionally of one database) with a reference held on
+// their partitions; release must be called.
+func verifShards(e *EngineImpl, db string) (shards []*shard, release func()) {
+	var pts []*DBPTInfo
+	e.mu.RLock()
+	for name, partitions := range e.DBPartitions {
+		if db != "" && db != name {
+			continue
+		}
+		for id := range partitions {
+			if err := e.checkAndAddRefPTNoLock(name, id); err != nil {
+				continue
+			}
+			pt := partitions[id]
+			pts = append(pts, pt)
+			pt.mu.RLock()
+			for _, sh := range pt.shards {
+				if s, ok := sh.(*shard); ok {
+					shards = append(shards, s)
+				}
+			}
+			pt.mu.RUnlock()
+		}
+	}
+	e.mu.RUnlock()
+	sort.Slice(shards, func(i, j int) bool { return shards[i].GetID() < shards[j].GetID() })
+	return shards, func() {
+		for _, pt := range pts {
+			pt.unref()
+		}
+	}
+}
+
+func verifReply(w http.ResponseWriter, v any) {
+	w.Header().Set("Content-Type", "application/json")
+	_ = json.NewEncoder(w).Encode(v)
+}
+
+func verifFlush(w http.ResponseWriter, r *http.Request) {
+	e := verifEng()
+	if e == nil {
+		http.Error(w, "no engine", 503)
+		return
+	}
+	shards, release := verifShards(e, r.URL.Query().Get("db"))
+	defer release()
+	n := 0
+	for _, s := range shards {
+		if s.IsOpened() {
+			s.ForceFlush()
+			n++
+		}
+	}
+	verifReply(w, map[string]any{"flushed_shards": n})
+}
+
+func verifCompact(w http.ResponseWriter, r *http.Request) {
+	e := verifEng()
+	if e == nil {
+		http.Error(w, "no engine", 503)
+		return
+	}
+	mode := r.URL.Query().Get("mode")
+	shards, release := verifShards(e, r.URL.Query().Get("db"))
+	defer release()
+	n := 0
+	var errs []string
+	for _, s := range shards {
+		if !s.IsOpened() || s.isDownsampled() {
+			continue
+		}
+		id := s.GetID()
+		wasEnabled := s.immTables.CompactionEnabled()
+		s.immTables.CompactionEnable()
+		switch mode {
+		case "full":
+			if err := s.immTables.FullCompact(id); err != nil {
+				errs = append(errs, err.Error())
+			}
+		default:
+			rule := immutable.LevelCompactRule
+			if s.engineType == config.COLUMNSTORE {
+				rule = immutable.LevelCompactRuleForCs
+			}
+			for _, level := range rule {
+				if err := s.immTables.LevelCompact(level, id); err != nil {
+					errs = append(errs, err.Error())
+				}
+			}
+		}
+		verifWait(s.immTables)
+		if !wasEnabled {
+			s.immTables.CompactionDisable()
+		}
+		n++
+	}
+	verifReply(w, map[string]any{"compacted_shards": n, "errors": errs})
+}
+
+func verifMerge(w http.ResponseWriter, r *http.Request) {
+	e := verifEng()
+	if e == nil {
+		http.Error(w, "no engine", 503)
+		return
+	}
+	full := r.URL.Query().Get("full") == "1"
+	shards, release := verifShards(e, r.URL.Query().Get("db"))
+	defer release()
+	n := 0
+	var errs []string
+	for _, s := range shards {
+		if !s.IsOpened() || s.isDownsampled() {
+			continue
+		}
+		wasEnabled := s.immTables.MergeEnabled()
+		s.immTables.MergeEnable()
+		if err := s.immTables.MergeOutOfOrder(s.GetID(), full, true); err != nil {
+			errs = append(errs, err.Error())
+		}
+		verifWait(s.immTables)
+		if !wasEnabled {
+			s.immTables.MergeDisable()
+		}
+		n++
+	}
+	verifReply(w, map[string]any{"merged_shards": n, "errors": errs})
+}
+
+type verifShardState struct {
+	ID           uint64 `json:"id"`
+	DB           string `json:"db"`
+	RP           string `json:"rp"`
+	PT           uint32 `json:"pt"`
+	Opened       bool   `json:"opened"`
+	ReplayingWal bool   `json:"replayingWal"`
+	ActiveMem    int64  `json:"activeMem"`
+	SnapshotTbl  bool   `json:"snapshotTbl"`
+	DataPath     string `json:"dataPath"`
+	WalPath      string `json:"walPath"`
+	EngineType   int    `json:"engineType"`
+}
+
+func verifState(w http.ResponseWriter, r *http.Request) {
+	e := verifEng()
+	if e == nil {
+		http.Error(w, "no engine", 503)
+		return
+	}
+	shards, release := verifShards(e, r.URL.Query().Get("db"))
+	defer release()
+	out := make([]verifShardState, 0, len(shards))
+	ready := true
+	for _, s := range shards {
+		st := verifShardState{ID: s.GetID(), DB: s.ident.OwnerDb, RP: s.ident.Policy, PT: s.ident.OwnerPt,
+			Opened: s.IsOpened(), ReplayingWal: s.replayingWal, DataPath: s.dataPath, WalPath: s.walPath,
+			EngineType: int(s.engineType)}
+		s.snapshotLock.RLock()
+		if s.activeTbl != nil {
+			st.ActiveMem = s.activeTbl.GetMemSize()
+		}
+		st.SnapshotTbl = s.snapshotTbl != nil
+		s.snapshotLock.RUnlock()
+		if st.ReplayingWal {
+			ready = false
+		}
+		out = append(out, st)
+	}
+	verifReply(w, map[string]any{"ready": ready, "shards": out, "points": verifhook.Counts(),
+		"fs_count": fileops.VerifCount(), "fs_enabled": fileops.VerifEnabled()})
+}
+
+func verifFsArm(w http.ResponseWriter, r *http.Request) {
+	k, _ := strconv.ParseInt(r.URL.Query().Get("k"), 10, 64)
+	torn, _ := strconv.ParseInt(r.URL.Query().Get("torn"), 10, 64)
+	fileops.VerifArm(k, torn)
+	verifReply(w, map[string]any{"armed": k, "torn": torn, "count": fileops.VerifCount()})
+}
+
+func verifFsCount(w http.ResponseWriter, r *http.Request) {
+	verifReply(w, map[string]any{"count": fileops.VerifCount()})
+}
+
+func verifPoints(w http.ResponseWriter, r *http.Request) {
+	b, _ := io.ReadAll(r.Body)
+	spec := string(b)
+	if spec == "" {
+		spec = r.URL.Query().Get("spec")
+	}
+	if err := verifhook.Set(spec); err != nil {
+		http.Error(w, err.Error(), 400)
+		return
+	}
+	verifReply(w, map[string]any{"ok": true, "counts": verifhook.Counts()})
+}
+
+func verifWait(t immutable.TablesStore) {
+	if w, ok := t.(interface{ Wait() }); ok {
+		w.Wait()
+	}
+}
